@@ -37,7 +37,7 @@ def _create_ensures(C, res):
     is_pair = lambda a, b: S[a].positions[b].isa('AlignedPair')
     pos = lambda a, b: S[a].positions[b].as_('ScoredAlignedPair')
     inr = lambda a, b: z3.And(rng(0, a, S.len), rng(0, b, S[a].positions.len), is_pair(a, b))
-    fl0, so0 = getattr(e, 'last_flatten', None), e.last_sorted
+    fl0, so0 = C.note('last_flatten'), C.note('last_sorted')
     steps = []
     if C.has('F') and fl0 is not None and so0 is not None:
         # stepping stones (each is proved, then available to the next): pair (a,b) -> index in the flattened list -> index in the sorted list
@@ -56,7 +56,7 @@ def _create_ensures(C, res):
           ('reference_start_and_end_bound_every_pair', forall([a, b], z3.Implies(inr(a, b), z3.And(
               res.referenceStartPosition <= pos(a, b).reference.position, pos(a, b).reference.position <= res.referenceEndPosition)),
               [S[a].positions.raw(b).t]))]
-    fl, so = getattr(e, 'last_flatten', None), e.last_sorted
+    fl, so = C.note('last_flatten'), C.note('last_sorted')
     if C.has('F') and fl is not None and so is not None:
         m = fl['m']
         # witnesses: the first / last element of the sorted pair list, traced back through the flattening
@@ -87,8 +87,9 @@ def _filter_ensures(C, res):
     k, k2, x = z3.Int('k'), z3.Int('k2'), z3.Int('x')
     cl = [('one_row_per_query_in_ascending_query_id', forall([k, k2], z3.Implies(z3.And(0 <= k, k < k2, k2 < res.len), res[k].queryId < res[k2].queryId),
                                                              [MP(res.raw(k).t, res.raw(k2).t)]))]
-    if C.has('F') and len(e.sorted_log) >= 2 and e.groupby_log:
-        s1, s2, vg = e.sorted_log[-2], e.sorted_log[-1], e.groupby_log[-1]
+    sl, gl = C.note('sorted_log', ()), C.note('groupby_log', ())
+    if C.has('F') and len(sl) >= 2 and gl:
+        s1, s2, vg = sl[-2], sl[-1], gl[-1]
         S2 = C._view_list(s2['S'])
         src = lambda k: s1['pi'](s2['pi'](vg.b(k)))                   # index in the input of result row k
         rep = lambda x: vg.grp(s2['pinv'](s1['pinv'](x)))             # result row representing input row x
